@@ -43,10 +43,9 @@ func leafNode() *mnode { return &mnode{leaf: true} }
 // as one bracket group `[1,2]`.
 func (n *mnode) paths() []string { return n.pathsFor(false) }
 
-// blackShadow: also write "prefix after deeper" pairs for black-list masks. OFF: on the tree as found a black-list complete path
-// written after one of its extensions (`$.oi.y` then `$.oi`) does not reject the node (it counts as an intermediate node because
-// it has children) — the library's order-dependent treatment of such sets is property C14's (docs/C13.md, "Observed").
-var blackShadow = false
+// blackShadow: also write "prefix after deeper" pairs for black-list masks. On the tree as found a black-list complete path written
+// after one of its extensions (`$.oi.y` then `$.oi`) does not reject the node (known finding black:prefix-after-deeper-path-ignored).
+var blackShadow = true
 
 var renderShadow = true
 
